@@ -858,4 +858,314 @@ theorem inv_typeExtension {ts o : List Tok} (h : D (.nt .typeExtension) ts o) (h
       (fun ts o hok h => out_ne_block h.nt_inv hok rfl rfl) h.nt_inv
     exact ⟨.inputObject, tb, ob, e1, e2, hb, hne⟩
 
+/-! ### the parsers of the bodies -/
+
+theorem cpl_scalarBody (n : Nat) (w : String) (tb ob : List Tok) (hok : TsOK tb) (hb : BodyD .scalar tb ob) (a : AS) (σ' : Stream)
+    (hs : Starts a.σ (tKw w :: tb) σ') (hfol : FolItem σ') {β : Type} (k : Pos → Name → List Directive → Prog β)
+    (R : β → AS → Prop)
+    (hk : ∀ pos nm dirs (b : AS), b.σ = σ' → tName nm :: printDirectives dirs = ob → Fwd (k pos nm dirs) b R) :
+    Fwd (do
+      let _ ← expectKeyword (str w)
+      let pos ← peekPos
+      let name ← parseName
+      let dirs ← parseDirectives n true
+      k pos name dirs) a R := by
+  obtain ⟨g1, g2, g3, g4, g5, g6, g7, g8⟩ := hfol
+  obtain ⟨nm, tds, ods, rfl, rfl, dds⟩ := hb
+  obtain ⟨σ1, h1, hs⟩ := hs.cons_single
+  obtain ⟨σ2, h2, h3⟩ := hs.cons_single
+  refine Fwd.bind (fwd_keyword w h1) ?_
+  rintro _ b1 hσb1
+  refine Fwd.bind (fwd_peekPos _) ?_
+  rintro pos b2 rfl
+  refine Fwd.bind (fwd_parseName nm (by simpa [hσb1] using h2)) ?_
+  rintro nm' b3 ⟨rfl, hσb3⟩
+  refine Fwd.bind (cpl_directives true n tds ods hok.tail dds b3 σ' (by rw [hσb3]; exact h3) g1 g2) ?_
+  rintro ds' b4 ⟨hds, hσ⟩
+  exact hk pos nm' ds' b4 hσ (by rw [hds])
+
+theorem cpl_objBody (n : Nat) (w : String) (tb ob : List Tok) (hok : TsOK tb) (hb : ObjBody tb ob) (a : AS) (σ' : Stream)
+    (hs : Starts a.σ (tKw w :: tb) σ') (hfol : FolItem σ') {β : Type}
+    (k : Pos → Name → List Name → List Directive → List FieldDef → Prog β) (R : β → AS → Prop)
+    (hk : ∀ pos nm ifs dirs fields (b : AS), b.σ = σ' →
+      tName nm :: (printImplements ifs ++ (printDirectives dirs ++ printBlock printFieldDef fields)) = ob →
+      Fwd (k pos nm ifs dirs fields) b R) :
+    Fwd (do
+      let _ ← expectKeyword (str w)
+      let pos ← peekPos
+      let name ← parseName
+      let ifs ← parseImplementsInterfaces n
+      let dirs ← parseDirectives n true
+      let fields ← parseFieldsDefinition n
+      k pos name ifs dirs fields) a R := by
+  obtain ⟨g1, g2, g3, g4, g5, g6, g7, g8⟩ := hfol
+  obtain ⟨nm, ti, oi, tds, ods, tf, of, rfl, rfl, di, dds, df⟩ := hb
+  obtain ⟨σ1, h1, hs⟩ := hs.cons_single
+  obtain ⟨σ2, h2, hs⟩ := hs.cons_single
+  rw [Starts.append_iff] at hs
+  obtain ⟨σ3, h3, hs⟩ := hs
+  rw [Starts.append_iff] at hs
+  obtain ⟨σ4, h4, h5⟩ := hs
+  have hoki : TsOK ti := hok.tail.left
+  have hokd : TsOK tds := hok.tail.right.left
+  have hokf : TsOK tf := hok.tail.right.right
+  have swf : StartsWith [.braceL] tf := sw_optBlock (df.opt_inv.imp id fun h => h.nt_inv) hokf rfl rfl
+  have swd := sw_optDirectives dds hokd
+  have q4 : σ4.head.kind ≠ .at ∧ σ4.head.kind ≠ .parenL ∧ σ4.head.kind ≠ .amp ∧ NoImplements σ4 :=
+    fol_mid h5 swf (fun u => u.kind ≠ .at ∧ u.kind ≠ .parenL ∧ u.kind ≠ .amp ∧ ¬(u.kind = .name ∧ u.value = kwImplements))
+      ⟨g1, g2, g4, g8⟩ (fun u hu => by simp at hu; simp [hu])
+  have q3 : σ3.head.kind ≠ .amp ∧ NoImplements σ3 :=
+    fol_mid h4 swd (fun u => u.kind ≠ .amp ∧ ¬(u.kind = .name ∧ u.value = kwImplements)) ⟨q4.2.2.1, q4.2.2.2⟩
+      (fun u hu => by simp at hu; simp [hu])
+  refine Fwd.bind (fwd_keyword w h1) ?_
+  rintro _ b1 hσb1
+  refine Fwd.bind (fwd_peekPos _) ?_
+  rintro pos b2 rfl
+  refine Fwd.bind (fwd_parseName nm (by simpa [hσb1] using h2)) ?_
+  rintro nm' b3 ⟨rfl, hσb3⟩
+  refine Fwd.bind (cpl_implements n ti oi hoki di b3 σ3 (by rw [hσb3]; exact h3) q3.1 (fun _ => q3.2)) ?_
+  rintro ifs b4 ⟨hifs, hσb4⟩
+  refine Fwd.bind (cpl_directives true n tds ods hokd dds b4 σ4 (by rw [hσb4]; exact h4) q4.1 q4.2.1) ?_
+  rintro ds' b5 ⟨hds, hσb5⟩
+  refine Fwd.bind (cpl_fieldDefs n tf of hokf df b5 σ' (by rw [hσb5]; exact h5) (fun _ => g3)) ?_
+  rintro fs' b6 ⟨hfs, hσ⟩
+  exact hk pos nm' ifs ds' fs' b6 hσ (by rw [hifs, hds, hfs])
+
+theorem cpl_dirsBlockBody {γ : Type} (B : NT) (kB : Kind) (hkB : kB ≠ .at ∧ kB ≠ .parenL) (P : Prog (List γ)) (prB : List γ → List Tok)
+    (swB : ∀ ts o, TsOK ts → D (.opt (.nt B)) ts o → StartsWith [kB] ts)
+    (hP : ∀ ts o, TsOK ts → D (.opt (.nt B)) ts o → ∀ a σ', Starts a.σ ts σ' → FolItem σ' →
+      Fwd P a (fun xs a' => prB xs = o ∧ a'.σ = σ'))
+    (n : Nat) (w : String) (tb ob : List Tok) (hok : TsOK tb) (hb : DirsBlockBody B tb ob) (a : AS) (σ' : Stream)
+    (hs : Starts a.σ (tKw w :: tb) σ') (hfol : FolItem σ') {β : Type}
+    (k : Pos → Name → List Directive → List γ → Prog β) (R : β → AS → Prop)
+    (hk : ∀ pos nm dirs xs (b : AS), b.σ = σ' → tName nm :: (printDirectives dirs ++ prB xs) = ob → Fwd (k pos nm dirs xs) b R) :
+    Fwd (do
+      let _ ← expectKeyword (str w)
+      let pos ← peekPos
+      let name ← parseName
+      let dirs ← parseDirectives n true
+      let xs ← P
+      k pos name dirs xs) a R := by
+  obtain ⟨g1, g2, g3, g4, g5, g6, g7, g8⟩ := hfol
+  obtain ⟨nm, tds, ods, tf, of, rfl, rfl, dds, df⟩ := hb
+  obtain ⟨σ1, h1, hs⟩ := hs.cons_single
+  obtain ⟨σ2, h2, hs⟩ := hs.cons_single
+  rw [Starts.append_iff] at hs
+  obtain ⟨σ4, h4, h5⟩ := hs
+  have hokd : TsOK tds := hok.tail.left
+  have hokf : TsOK tf := hok.tail.right
+  have q4 : σ4.head.kind ≠ .at ∧ σ4.head.kind ≠ .parenL :=
+    fol_mid h5 (swB tf of hokf df) (fun u => u.kind ≠ .at ∧ u.kind ≠ .parenL) ⟨g1, g2⟩
+      (fun u hu => by simp at hu; rw [hu]; exact hkB)
+  refine Fwd.bind (fwd_keyword w h1) ?_
+  rintro _ b1 hσb1
+  refine Fwd.bind (fwd_peekPos _) ?_
+  rintro pos b2 rfl
+  refine Fwd.bind (fwd_parseName nm (by simpa [hσb1] using h2)) ?_
+  rintro nm' b3 ⟨rfl, hσb3⟩
+  refine Fwd.bind (cpl_directives true n tds ods hokd dds b3 σ4 (by rw [hσb3]; exact h4) q4.1 q4.2) ?_
+  rintro ds' b5 ⟨hds, hσb5⟩
+  refine Fwd.bind (hP tf of hokf df b5 σ' (by rw [hσb5]; exact h5) ⟨g1, g2, g3, g4, g5, g6, g7, g8⟩) ?_
+  rintro xs b6 ⟨hxs, hσ⟩
+  exact hk pos nm' ds' xs b6 hσ (by rw [hds, hxs])
+
+theorem cpl_unionBody (n : Nat)
+    (w : String) (tb ob : List Tok) (hok : TsOK tb) (hb : DirsBlockBody .unionMemberTypes tb ob) (a : AS) (σ' : Stream)
+    (hs : Starts a.σ (tKw w :: tb) σ') (hfol : FolItem σ') {β : Type}
+    (k : Pos → Name → List Directive → List Name → Prog β) (R : β → AS → Prop)
+    (hk : ∀ pos nm dirs xs (b : AS), b.σ = σ' → tName nm :: (printDirectives dirs ++ printMembers xs) = ob → Fwd (k pos nm dirs xs) b R) :
+    Fwd (do
+      let _ ← expectKeyword (str w)
+      let pos ← peekPos
+      let name ← parseName
+      let dirs ← parseDirectives n true
+      let xs ← parseUnionMemberTypes n
+      k pos name dirs xs) a R :=
+  cpl_dirsBlockBody .unionMemberTypes .equals (by decide) (parseUnionMemberTypes n) printMembers
+    (fun ts o hok h => sw_optMembers h hok)
+    (fun ts o hok h a σ' hs hf => cpl_unionMembers n ts o hok h a σ' hs hf.2.2.2.2.2.1 (fun _ => hf.2.2.2.2.1))
+    n w tb ob hok hb a σ' hs hfol k R hk
+
+theorem cpl_enumBody (n : Nat)
+    (w : String) (tb ob : List Tok) (hok : TsOK tb) (hb : DirsBlockBody .enumValuesDefinition tb ob) (a : AS) (σ' : Stream)
+    (hs : Starts a.σ (tKw w :: tb) σ') (hfol : FolItem σ') {β : Type}
+    (k : Pos → Name → List Directive → List EnumValDef → Prog β) (R : β → AS → Prop)
+    (hk : ∀ pos nm dirs xs (b : AS), b.σ = σ' → tName nm :: (printDirectives dirs ++ printBlock printEnumVal xs) = ob → Fwd (k pos nm dirs xs) b R) :
+    Fwd (do
+      let _ ← expectKeyword (str w)
+      let pos ← peekPos
+      let name ← parseName
+      let dirs ← parseDirectives n true
+      let xs ← parseEnumValuesDefinition n
+      k pos name dirs xs) a R :=
+  cpl_dirsBlockBody .enumValuesDefinition .braceL (by decide) (parseEnumValuesDefinition n) (printBlock printEnumVal)
+    (fun ts o hok h => sw_optBlock (h.opt_inv.imp id fun h => h.nt_inv) hok rfl rfl)
+    (fun ts o hok h a σ' hs hf => cpl_enumVals n ts o hok h a σ' hs (fun _ => hf.2.2.1))
+    n w tb ob hok hb a σ' hs hfol k R hk
+
+theorem cpl_inputBody (n : Nat)
+    (w : String) (tb ob : List Tok) (hok : TsOK tb) (hb : DirsBlockBody .inputFieldsDefinition tb ob) (a : AS) (σ' : Stream)
+    (hs : Starts a.σ (tKw w :: tb) σ') (hfol : FolItem σ') {β : Type}
+    (k : Pos → Name → List Directive → List FieldDef → Prog β) (R : β → AS → Prop)
+    (hk : ∀ pos nm dirs xs (b : AS), b.σ = σ' → tName nm :: (printDirectives dirs ++ printBlock printInputField xs) = ob → Fwd (k pos nm dirs xs) b R) :
+    Fwd (do
+      let _ ← expectKeyword (str w)
+      let pos ← peekPos
+      let name ← parseName
+      let dirs ← parseDirectives n true
+      let xs ← parseInputFieldsDefinition n
+      k pos name dirs xs) a R :=
+  cpl_dirsBlockBody .inputFieldsDefinition .braceL (by decide) (parseInputFieldsDefinition n) (printBlock printInputField)
+    (fun ts o hok h => sw_optBlock (h.opt_inv.imp id fun h => h.nt_inv) hok rfl rfl)
+    (fun ts o hok h a σ' hs hf => cpl_inputFields n ts o hok h a σ' hs (fun _ => hf.2.2.1))
+    n w tb ob hok hb a σ' hs hfol k R hk
+
+/-- the result of a type-definition parser: description, kind and unparse of the body -/
+def DefRes (desc : Bytes) (k : DefKind) (ob : List Tok) (σ' : Stream) (y : Definition) (a' : AS) : Prop :=
+  y.desc = desc ∧ y.kind = k ∧ printDefBody y = ob ∧ a'.σ = σ'
+
+theorem printImplements_nil_of_length {ifs : List Name} (h : ifs.length = 0) : printImplements ifs = [] := by
+  cases ifs with
+  | nil => rfl
+  | cons _ _ => simp at h
+
+theorem cpl_scalarDef (n : Nat) (desc : Bytes) (tb ob : List Tok) (hok : TsOK tb) (hb : BodyD .scalar tb ob) (a : AS) (σ' : Stream)
+    (hs : Starts a.σ (tKw "scalar" :: tb) σ') (hfol : FolItem σ') :
+    Fwd (parseScalarTypeDefinition n desc) a (DefRes desc .scalar ob σ') := by
+  unfold parseScalarTypeDefinition
+  refine cpl_scalarBody n "scalar" tb ob hok hb a σ' hs hfol _ _ ?_
+  intro pos nm dirs b hσ hob
+  refine (Fwd.pure _ _).mono ?_
+  rintro y b' ⟨rfl, rfl⟩
+  exact ⟨rfl, rfl, by simpa [printDefBody] using hob, hσ⟩
+
+theorem cpl_scalarExt (n : Nat) (tb ob : List Tok) (hok : TsOK tb) (hb : BodyD .scalar tb ob) (hne : ob.tail ≠ []) (a : AS)
+    (σ' : Stream) (hs : Starts a.σ (tKw "scalar" :: tb) σ') (hfol : FolItem σ') :
+    Fwd (parseScalarTypeExtension n) a (DefRes [] .scalar ob σ') := by
+  unfold parseScalarTypeExtension
+  refine cpl_scalarBody n "scalar" tb ob hok hb a σ' hs hfol _ _ ?_
+  intro pos nm dirs b hσ hob
+  refine Fwd.ite_neg (by
+    intro hc
+    apply hne
+    rw [← hob, List.eq_nil_of_length_eq_zero hc]; rfl) ((Fwd.pure _ _).mono ?_)
+  rintro y b' ⟨rfl, rfl⟩
+  exact ⟨rfl, rfl, by simpa [printDefBody] using hob, hσ⟩
+
+theorem cpl_objectDef (n : Nat) (desc : Bytes) (tb ob : List Tok) (hok : TsOK tb) (hb : BodyD .object tb ob) (a : AS) (σ' : Stream)
+    (hs : Starts a.σ (tKw "type" :: tb) σ') (hfol : FolItem σ') :
+    Fwd (parseObjectTypeDefinition n desc) a (DefRes desc .object ob σ') := by
+  unfold parseObjectTypeDefinition
+  refine cpl_objBody n "type" tb ob hok hb a σ' hs hfol _ _ ?_
+  intro pos nm ifs dirs fields b hσ hob
+  refine (Fwd.pure _ _).mono ?_
+  rintro y b' ⟨rfl, rfl⟩
+  exact ⟨rfl, rfl, by simpa [printDefBody] using hob, hσ⟩
+
+theorem cpl_interfaceDef (n : Nat) (desc : Bytes) (tb ob : List Tok) (hok : TsOK tb) (hb : BodyD .interface tb ob) (a : AS)
+    (σ' : Stream) (hs : Starts a.σ (tKw "interface" :: tb) σ') (hfol : FolItem σ') :
+    Fwd (parseInterfaceTypeDefinition n desc) a (DefRes desc .interface ob σ') := by
+  unfold parseInterfaceTypeDefinition
+  refine cpl_objBody n "interface" tb ob hok hb a σ' hs hfol _ _ ?_
+  intro pos nm ifs dirs fields b hσ hob
+  refine (Fwd.pure _ _).mono ?_
+  rintro y b' ⟨rfl, rfl⟩
+  exact ⟨rfl, rfl, by simpa [printDefBody] using hob, hσ⟩
+
+theorem obj_extends {nm : Name} {ifs : List Name} {dirs : List Directive} {fields : List FieldDef} {ob : List Tok}
+    (hob : tName nm :: (printImplements ifs ++ (printDirectives dirs ++ printBlock printFieldDef fields)) = ob)
+    (hne : ob.tail ≠ []) : ¬ (ifs.length = 0 ∧ dirs.length = 0 ∧ fields.length = 0) := by
+  intro hc
+  apply hne
+  rw [← hob, List.eq_nil_of_length_eq_zero hc.1, List.eq_nil_of_length_eq_zero hc.2.1, List.eq_nil_of_length_eq_zero hc.2.2]
+  rfl
+
+theorem cpl_objectExt (n : Nat) (tb ob : List Tok) (hok : TsOK tb) (hb : BodyD .object tb ob) (hne : ob.tail ≠ []) (a : AS)
+    (σ' : Stream) (hs : Starts a.σ (tKw "type" :: tb) σ') (hfol : FolItem σ') :
+    Fwd (parseObjectTypeExtension n) a (DefRes [] .object ob σ') := by
+  unfold parseObjectTypeExtension
+  refine cpl_objBody n "type" tb ob hok hb a σ' hs hfol _ _ ?_
+  intro pos nm ifs dirs fields b hσ hob
+  refine Fwd.ite_neg (obj_extends hob hne) ((Fwd.pure _ _).mono ?_)
+  rintro y b' ⟨rfl, rfl⟩
+  exact ⟨rfl, rfl, by simpa [printDefBody] using hob, hσ⟩
+
+theorem cpl_interfaceExt (n : Nat) (tb ob : List Tok) (hok : TsOK tb) (hb : BodyD .interface tb ob) (hne : ob.tail ≠ []) (a : AS)
+    (σ' : Stream) (hs : Starts a.σ (tKw "interface" :: tb) σ') (hfol : FolItem σ') :
+    Fwd (parseInterfaceTypeExtension n) a (DefRes [] .interface ob σ') := by
+  unfold parseInterfaceTypeExtension
+  refine cpl_objBody n "interface" tb ob hok hb a σ' hs hfol _ _ ?_
+  intro pos nm ifs dirs fields b hσ hob
+  refine Fwd.ite_neg (obj_extends hob hne) ((Fwd.pure _ _).mono ?_)
+  rintro y b' ⟨rfl, rfl⟩
+  exact ⟨rfl, rfl, by simpa [printDefBody] using hob, hσ⟩
+
+theorem block_extends {γ : Type} {nm : Name} {dirs : List Directive} {xs : List γ} {prB : List γ → List Tok} {ob : List Tok}
+    (hnil : prB [] = []) (hob : tName nm :: (printDirectives dirs ++ prB xs) = ob) (hne : ob.tail ≠ []) :
+    ¬ (dirs.length = 0 ∧ xs.length = 0) := by
+  intro hc
+  apply hne
+  rw [← hob, List.eq_nil_of_length_eq_zero hc.1, List.eq_nil_of_length_eq_zero hc.2, hnil]
+  rfl
+
+theorem cpl_unionDef (n : Nat) (desc : Bytes) (tb ob : List Tok) (hok : TsOK tb) (hb : BodyD .union tb ob) (a : AS) (σ' : Stream)
+    (hs : Starts a.σ (tKw "union" :: tb) σ') (hfol : FolItem σ') :
+    Fwd (parseUnionTypeDefinition n desc) a (DefRes desc .union ob σ') := by
+  unfold parseUnionTypeDefinition
+  refine cpl_unionBody n "union" tb ob hok hb a σ' hs hfol _ _ ?_
+  intro pos nm dirs xs b hσ hob
+  refine (Fwd.pure _ _).mono ?_
+  rintro y b' ⟨rfl, rfl⟩
+  exact ⟨rfl, rfl, by simpa [printDefBody] using hob, hσ⟩
+
+theorem cpl_unionExt (n : Nat) (tb ob : List Tok) (hok : TsOK tb) (hb : BodyD .union tb ob) (hne : ob.tail ≠ []) (a : AS)
+    (σ' : Stream) (hs : Starts a.σ (tKw "union" :: tb) σ') (hfol : FolItem σ') :
+    Fwd (parseUnionTypeExtension n) a (DefRes [] .union ob σ') := by
+  unfold parseUnionTypeExtension
+  refine cpl_unionBody n "union" tb ob hok hb a σ' hs hfol _ _ ?_
+  intro pos nm dirs xs b hσ hob
+  refine Fwd.ite_neg (block_extends rfl hob hne) ((Fwd.pure _ _).mono ?_)
+  rintro y b' ⟨rfl, rfl⟩
+  exact ⟨rfl, rfl, by simpa [printDefBody] using hob, hσ⟩
+
+theorem cpl_enumDef (n : Nat) (desc : Bytes) (tb ob : List Tok) (hok : TsOK tb) (hb : BodyD .enum tb ob) (a : AS) (σ' : Stream)
+    (hs : Starts a.σ (tKw "enum" :: tb) σ') (hfol : FolItem σ') :
+    Fwd (parseEnumTypeDefinition n desc) a (DefRes desc .enum ob σ') := by
+  unfold parseEnumTypeDefinition
+  refine cpl_enumBody n "enum" tb ob hok hb a σ' hs hfol _ _ ?_
+  intro pos nm dirs xs b hσ hob
+  refine (Fwd.pure _ _).mono ?_
+  rintro y b' ⟨rfl, rfl⟩
+  exact ⟨rfl, rfl, by simpa [printDefBody] using hob, hσ⟩
+
+theorem cpl_enumExt (n : Nat) (tb ob : List Tok) (hok : TsOK tb) (hb : BodyD .enum tb ob) (hne : ob.tail ≠ []) (a : AS)
+    (σ' : Stream) (hs : Starts a.σ (tKw "enum" :: tb) σ') (hfol : FolItem σ') :
+    Fwd (parseEnumTypeExtension n) a (DefRes [] .enum ob σ') := by
+  unfold parseEnumTypeExtension
+  refine cpl_enumBody n "enum" tb ob hok hb a σ' hs hfol _ _ ?_
+  intro pos nm dirs xs b hσ hob
+  refine Fwd.ite_neg (block_extends rfl hob hne) ((Fwd.pure _ _).mono ?_)
+  rintro y b' ⟨rfl, rfl⟩
+  exact ⟨rfl, rfl, by simpa [printDefBody] using hob, hσ⟩
+
+theorem cpl_inputDef (n : Nat) (desc : Bytes) (tb ob : List Tok) (hok : TsOK tb) (hb : BodyD .inputObject tb ob) (a : AS)
+    (σ' : Stream) (hs : Starts a.σ (tKw "input" :: tb) σ') (hfol : FolItem σ') :
+    Fwd (parseInputObjectTypeDefinition n desc) a (DefRes desc .inputObject ob σ') := by
+  unfold parseInputObjectTypeDefinition
+  refine cpl_inputBody n "input" tb ob hok hb a σ' hs hfol _ _ ?_
+  intro pos nm dirs xs b hσ hob
+  refine (Fwd.pure _ _).mono ?_
+  rintro y b' ⟨rfl, rfl⟩
+  exact ⟨rfl, rfl, by simpa [printDefBody] using hob, hσ⟩
+
+theorem cpl_inputExt (n : Nat) (tb ob : List Tok) (hok : TsOK tb) (hb : BodyD .inputObject tb ob) (hne : ob.tail ≠ []) (a : AS)
+    (σ' : Stream) (hs : Starts a.σ (tKw "input" :: tb) σ') (hfol : FolItem σ') :
+    Fwd (parseInputObjectTypeExtension n) a (DefRes [] .inputObject ob σ') := by
+  unfold parseInputObjectTypeExtension
+  refine cpl_inputBody n "input" tb ob hok hb a σ' hs hfol _ _ ?_
+  intro pos nm dirs xs b hσ hob
+  refine Fwd.ite_neg (block_extends rfl hob hne) ((Fwd.pure _ _).mono ?_)
+  rintro y b' ⟨rfl, rfl⟩
+  exact ⟨rfl, rfl, by simpa [printDefBody] using hob, hσ⟩
+
 end Gql.Parser
